@@ -366,6 +366,13 @@ def run_c18(tier):
             cpp_text = o['print'].encode('latin-1', 'replace').decode('latin-1')
             if py_text != cpp_text:
                 chk.property_violation(casej, {'what': 'str() in Python and print() in C++ differ', 'python': py_text, 'cpp': cpp_text})
+            if v == V.default_value(c.tree):
+                # the freshly constructed message, nothing assigned, renders like the message holding the default values
+                fresh = str(c.cls())
+                chk.bump('fresh-message')
+                if fresh != cpp_text:
+                    chk.property_violation(dict(casej, built='fresh message, no field assigned'),
+                                           {'what': 'str() of a fresh message and print() of the same message in C++ differ', 'python': fresh, 'cpp': cpp_text})
             chk.corr_compared += 2
             if ans[3 * i + 1]['text'] != py_text:
                 chk.correspondence_mismatch('Text.pyText = str(message)', casej, py_text, ans[3 * i + 1]['text'])
